@@ -38,6 +38,17 @@ Definition v_full (fn : fn_t) (tabs : option tables) (uin uout : unit_t) (tol2 :
               (props_check uout tol2 q (qs main) (qs swapped) (qs elem) (option_map qs shifted))
   end.
 
+(* a long call: the sampled positions are judged as above; [ext] = (minimum, maximum) of the WHOLE output
+   (a NaN anywhere makes both NaN), which must be finite and in range *)
+Definition v_long (fn : fn_t) (tabs : option tables) (uin uout : unit_t) (tol2 : Q) (pts : list fpt)
+           (main swapped elem : result (list float)) (shifted : option (result (list float)))
+           (ext : result (list float)) : Z :=
+  let v := v_full fn tabs uin uout tol2 pts main swapped elem shifted in
+  match qs ext with
+  | Ok l => if all_range uout l then v else Z.lor v 2
+  | Err _ => Z.lor v 2
+  end.
+
 (* sanity (vm_compute): table lookup is by bit pattern, a missing key poisons the result *)
 Example lookup_examples :
   Leibniz.eqb (lookup [(0x1p+0, 0x1.8p+1); (-0, 0x1p+2)]%float (-0)%float) 0x1p+2
